@@ -4,6 +4,7 @@
 #define VERIF_HARNESS_PIPES_HPP
 
 #include "viewcommon.hpp"
+#include <stdexcept>
 
 namespace vh
 {
@@ -65,6 +66,161 @@ namespace vh
                     with_value(out, e2, [&](const auto& a2) {
                         const auto v3 = f3(a2);
                         emit_view_all(out, v3);
+                    });
+                });
+            });
+        });
+    }
+
+    // ------------------------------------------------------------------------------------------------------------
+    // generated pipelines (vf/c10_gen.py): leaves of several storage kinds, binary trees
+    // ------------------------------------------------------------------------------------------------------------
+
+    // hybrid leaf: run-time shape, elements in a bounded buffer (result storage may be inferred as bounded)
+    template <typename T, size_t CAP>
+    using hyb_t = na::ndarray_t<nmtools_static_vector<T, CAP>, nmtools_list<nm_size_t>>;
+
+    struct kind_dyn {};
+    template <size_t CAP>
+    struct kind_hyb {};
+
+    template <typename T, typename D>
+    auto make_leaf(kind_dyn, const std::vector<long long>& shape, const std::vector<D>& data)
+    {
+        return make_arr_data<T>(shape, data);
+    }
+
+    template <typename T, size_t CAP, typename D>
+    auto make_leaf(kind_hyb<CAP>, const std::vector<long long>& shape, const std::vector<D>& data)
+    {
+        hyb_t<T, CAP> a;
+        auto n = prod(shape);
+        if (n < 0 || n > (long long)CAP || !a.resize(to_shape(shape))) {
+            throw std::runtime_error("leaf-exceeds-capacity");   // a generator error (reported as EXC), never a verdict
+        }
+        for (long long k = 0; k < n && k < (long long)data.size(); k++) a.data()[k] = (T)data[(size_t)k];
+        return a;
+    }
+
+    // run-time list of (start, stop, step) triples: "n  a b c  a b c ..."
+    inline nmtools_list<nmtools_array<int, 3>> read_slices(Args& in)
+    {
+        nmtools_list<nmtools_array<int, 3>> sl;
+        auto n = in.i();
+        for (long long k = 0; k < n; k++) {
+            auto a = (int)in.i();
+            auto b = (int)in.i();
+            auto c = (int)in.i();
+            sl.push_back(nmtools_array<int, 3>{a, b, c});
+        }
+        return sl;
+    }
+
+    // one operand of a tree node: make() -> view (or maybe<view>); k(operand) is called with the view itself (fused)
+    // or with the view evaluated to a concrete array (staged; a maybe<view> is handed to eval as it is, so that eval's own
+    // lifting of optional views is exercised). A Nothing at any level prints NOTHING once.
+    template <bool staged, typename make_t, typename cont_t>
+    void feed(Out& out, make_t&& make, cont_t&& k)
+    {
+        const auto v = make();
+        if constexpr (staged) {
+            const auto e = na::eval(v, nm::None, nm::None, na::RowMajorResolver);
+            with_value(out, e, [&](const auto& a) { k(a); });
+        } else {
+            with_value(out, v, [&](const auto& u) { k(u); });
+        }
+    }
+
+    // two stages, "lifted": the inner result is handed to the outer operation exactly as returned (an optional view stays
+    // optional: the outer operation's own lifting of optional operands is exercised); staged: eval(inner) - an optional
+    // array if the inner view is optional - handed to the outer operation as it is
+    template <typename inner_f, typename outer_f>
+    void pipe2_lifted(Out& out, inner_f&& inner, outer_f&& outer)
+    {
+        const auto v1 = inner();
+        out.tok("F");
+        {
+            const auto v2 = outer(v1);
+            emit_view_all(out, v2);
+        }
+        out.tok("G");
+        {
+            const auto e1 = na::eval(v1, nm::None, nm::None, na::RowMajorResolver);
+            const auto v2 = outer(e1);
+            emit_view_all(out, v2);
+        }
+    }
+
+    // F <body(fused)> G <body(staged)>
+    template <typename body_t>
+    void fused_staged(Out& out, body_t&& body)
+    {
+        out.tok("F");
+        body(std::false_type{});
+        out.tok("G");
+        body(std::true_type{});
+    }
+
+    // binary tree  op(f(a), g(b)):  f, g: () -> view ; op: (x, y) -> view
+    template <typename f_t, typename g_t, typename op_t>
+    void tree2(Out& out, f_t&& f, g_t&& g, op_t&& op)
+    {
+        fused_staged(out, [&](auto staged) {
+            constexpr bool S = decltype(staged)::value;
+            feed<S>(out, f, [&](const auto& x) {
+                feed<S>(out, g, [&](const auto& y) {
+                    const auto v = op(x, y);
+                    emit_view_all(out, v);
+                });
+            });
+        });
+    }
+
+    // depth 3:  top(op(f(a), g(b)))
+    template <typename f_t, typename g_t, typename op_t, typename top_t>
+    void tree3_top(Out& out, f_t&& f, g_t&& g, op_t&& op, top_t&& top)
+    {
+        fused_staged(out, [&](auto staged) {
+            constexpr bool S = decltype(staged)::value;
+            feed<S>(out, f, [&](const auto& x) {
+                feed<S>(out, g, [&](const auto& y) {
+                    feed<S>(out, [&]() { return op(x, y); }, [&](const auto& z) {
+                        const auto v = top(z);
+                        emit_view_all(out, v);
+                    });
+                });
+            });
+        });
+    }
+
+    // depth 3:  op(h(f(a)), g(b))
+    template <typename f_t, typename h_t, typename g_t, typename op_t>
+    void tree3_left(Out& out, f_t&& f, h_t&& h, g_t&& g, op_t&& op)
+    {
+        fused_staged(out, [&](auto staged) {
+            constexpr bool S = decltype(staged)::value;
+            feed<S>(out, f, [&](const auto& x0) {
+                feed<S>(out, [&]() { return h(x0); }, [&](const auto& x) {
+                    feed<S>(out, g, [&](const auto& y) {
+                        const auto v = op(x, y);
+                        emit_view_all(out, v);
+                    });
+                });
+            });
+        });
+    }
+
+    // depth 3:  op(f(a), h(g(b)))
+    template <typename f_t, typename g_t, typename h_t, typename op_t>
+    void tree3_right(Out& out, f_t&& f, g_t&& g, h_t&& h, op_t&& op)
+    {
+        fused_staged(out, [&](auto staged) {
+            constexpr bool S = decltype(staged)::value;
+            feed<S>(out, f, [&](const auto& x) {
+                feed<S>(out, g, [&](const auto& y0) {
+                    feed<S>(out, [&]() { return h(y0); }, [&](const auto& y) {
+                        const auto v = op(x, y);
+                        emit_view_all(out, v);
                     });
                 });
             });
